@@ -120,6 +120,14 @@ class BitArray(Bits):
         """Return a copy of the bitstring."""
         return self.__copy__()
 
+    @classmethod
+    def fromstring(cls: TBits, s: str, /) -> TBits:
+        """Create a new bitstring from a formatted string."""
+        x = super().fromstring(s)
+        # The parsed string comes from a cache, so a mutable bitstring needs its own copy.
+        x._bitstore = x._bitstore._copy()
+        return x
+
     def __setattr__(self, attribute, value) -> None:
         try:
             # First try the ordinary attribute setter
